@@ -273,7 +273,7 @@ CHECKS = {
         "min_obs": {"pdep_pext_pairs": 5000000, "codec_cases": 20000, "runs_with_bmi2": 1, "runs_portable_path": 1},
     },
     "C15": {
-        "scenarios": [("C15-close", "vsim"), ("C15-deadline", "vsim"), ("C15-race", "vrace"), ("C01-tcp", "vrace", 0.15)],
+        "scenarios": [("C15-close", "vsim"), ("C15-deadline", "vsim"), ("C15-wdeadline", "vsim"), ("C15-race", "vrace"), ("C01-tcp", "vrace", 0.15)],
         "races": True,
         "rule": "(a) 1-3 sessions (TCP multiplexed on one connection, or UDP) with a Read parked at each end of every session and, in a "
                 "third of the TCP cases, a writer parked behind back-pressure on 8 KiB pipes; after an idle period of 0/3/7/70/130 "
@@ -282,7 +282,9 @@ CHECKS = {
                 "5 s and may be repeated, every parked call on an affected connection returns (5 s local, 30 s TCP remote, 300 s where "
                 "UDP must rely on idle expiry), a final Stop of both ends returns within 5 s, and no goroutine with a mieru frame "
                 "remains 130 s later; (b) SetReadDeadline/SetDeadline then 1-5 later Reads with and without data exchanged in "
-                "between: each returns a time-out no later than the deadline + 1 s; (c) reader + writer + closer goroutines on the "
+                "between: each returns a time-out no later than the deadline + 1 s; the same for Write loops (10 B .. 200 kB per call) "
+                "towards a peer that does not read or behind a network that delivers nothing, deadline future / now / past, set "
+                "with SetDeadline or SetWriteDeadline, two loops per case; (c) reader + writer + closer goroutines on the "
                 "same session and Stop racing sessions under the race detector; distinct = hash of case parameters",
         "technique": "runtime monitor: bounded-return oracle in virtual time over parked Read/Write/Close/Stop calls + goroutine census "
                      "at quiescence + Go race detector over close/stop racing traffic",
@@ -292,7 +294,7 @@ CHECKS = {
         "note": "trusted: Go runtime faketime mode (virtual time advances only when every goroutine is parked), simnet; the race build "
                 "runs in real time and contributes only race reports and crashes",
         "design_ref": "DESIGN.md section 4, C15",
-        "min_obs": {"blocked_calls": 200, "deadline_reads": 100, "raced_sessions": 20},
+        "min_obs": {"blocked_calls": 200, "deadline_reads": 100, "deadline_write_loops": 40, "raced_sessions": 20},
         "timeout": {"quick": 1200, "thorough": 14000},
     },
     "C16": {
